@@ -3099,7 +3099,7 @@ fn script_wire(rng: &mut Rng, tier: Tier, f: &mut dyn FnMut(&str) -> String) {
 // profile 0: nc-regress — one fixed op list per repaired defect (deterministic, run on every check)
 // =============================================================================================
 
-const REGRESS_CASES: usize = 59;
+const REGRESS_CASES: usize = 63;
 
 fn regress_script(case: usize, f: &mut dyn FnMut(&str) -> String) {
     let mut rng = Rng::new(0xD1CE + case as u64);
@@ -5041,6 +5041,179 @@ fn regress_script(case: usize, f: &mut dyn FnMut(&str) -> String) {
                 }
             }
         }
+        // the server's public address is a LOOPBACK address (127.0.0.1:5000). Tokens sealed under the server's key, right
+        // protocol id, not expired, issued ONLY for sibling servers on other loopback addresses with the same port
+        // (127.0.0.2:5000, [::1]:5000, both): not valid for this server, no answer, nothing changes. Control: a token that
+        // lists the sibling first and this server second is answered and connects
+        59 => {
+            let sib4 = a4(127, 0, 0, 2, 5000);
+            let lo6 = "6:00000000000000000000000000000001:5000".to_string();
+            let lists = [sib4.clone(), lo6.clone(), format!("{},{}", sib4, lo6), format!("{},{}", sib4, hosts)];
+            for (j, list) in lists.iter().enumerate() {
+                let id = 84 + j as u64;
+                let mut spec = base_spec(rng, id, proto, key, 5, list);
+                spec.expire = 35;
+                spec.seal_expire = 35;
+                spec.timeout = 5;
+                let from = a4(10, 9, 9, 1 + j as u8, 4950 + j as u16);
+                if let Some(c) = new_client(&mut sc, 5 + j as u64, &from, &spec, 5_000_000) {
+                    sc.op("srv-dump 0");
+                    if let (_, Some(k)) = sc.opd(&format!("cli-upd {} 0", c.h)) {
+                        let rq = sc.hist[k].bytes.clone();
+                        if let (_, Some(k)) = sc.opd(&format!("srv-rx 0 {} {}", from, hex(&rq))) {
+                            let ch = sc.hist[k].bytes.clone();
+                            answer_challenge(&mut sc, c.h, &from, &ch, if j == 3 { Some("expect-connected") } else { None });
+                        }
+                    }
+                    sc.op("srv-dump 0");
+                    sc.op(&format!("srv-q 0 {}", id));
+                }
+            }
+        }
+        // a SMALL server (2 seats). Token 40 is used from A, its owner connects and leaves. Five other valid tokens are
+        // presented after it (requests only, 250 ms apart, five addresses). Then token 40 — still unexpired — is presented
+        // from another address B by a fresh client instance: nothing (the binding "first used from A" is not forgotten
+        // after 2 * max_clients other tokens)
+        60 => {
+            let (a, b) = (cls[0].addr.clone(), a4(10, 6, 6, 6, 4966));
+            if fast_connect(&mut sc, &cls[0]) {
+                if let (_, Some(k)) = sc.opd("cli-disc 0") {
+                    let d = sc.hist[k].bytes.clone();
+                    sc.op(&format!("srv-rx 0 {} {}", a, hex(&d)));
+                }
+                sc.op("srv-q 0 40");
+                let mut others: Vec<(u64, String)> = vec![(cls[1].h, cls[1].addr.clone())];
+                for j in 0..4u64 {
+                    let mut spec = base_spec(rng, 90 + j, proto, key, 5, &hosts);
+                    spec.expire = 35;
+                    spec.seal_expire = 35;
+                    spec.timeout = 5;
+                    if let Some(c) = new_client(&mut sc, 5 + j, &a4(10, 9, 10, 1 + j as u8, 4930 + j as u16), &spec, 5_000_000) {
+                        others.push((c.h, c.addr.clone()));
+                    }
+                }
+                for (h, ad) in others.iter() {
+                    sc.op("srv-upd 0 250000");
+                    if let (_, Some(k)) = sc.opd(&format!("cli-upd {} 0", h)) {
+                        let rq = sc.hist[k].bytes.clone();
+                        sc.op(&format!("srv-rx 0 {} {}", ad, hex(&rq)));
+                    }
+                }
+                sc.op("srv-dump 0");
+                if sc.op(&format!("cli-new 9 5000000 {}", cls[0].tok.hex)) == "ok" {
+                    if let (_, Some(k)) = sc.opd("cli-upd 9 0") {
+                        let rq = sc.hist[k].bytes.clone();
+                        if let (_, Some(k)) = sc.opd(&format!("srv-rx 0 {} {}", b, hex(&rq))) {
+                            let ch = sc.hist[k].bytes.clone();
+                            answer_challenge(&mut sc, 9, &b, &ch, None);
+                        }
+                    }
+                }
+                sc.op("srv-dump 0");
+                sc.op("srv-q 0 40");
+            }
+        }
+        // two half-open sessions for ONE client id (88; two valid tokens, addresses A and B, both requests answered before
+        // either response). A completes the handshake; B, still half-open, gives up: `NetcodeClient::disconnect()` while
+        // connecting, its Disconnect datagram reaches the server. No event; the session of 88 at A is still in the table,
+        // lookups and payload routing refer to it, its traffic flows in both directions
+        61 => {
+            let mut two: Vec<Cl> = vec![];
+            for j in 0..2u8 {
+                let mut spec = base_spec(rng, 88, proto, key, 5, &hosts);
+                spec.expire = 35;
+                spec.seal_expire = 35;
+                spec.timeout = 5;
+                spec.ud = vec![0xe0 + j; 256];
+                if let Some(c) = new_client(&mut sc, 5 + j as u64, &a4(10, 9, 11, 1 + j, 4961 + j as u16), &spec, 5_000_000) {
+                    two.push(c);
+                }
+            }
+            if two.len() == 2 {
+                let (a, b) = (two[0].addr.clone(), two[1].addr.clone());
+                let mut chal: Vec<Vec<u8>> = vec![];
+                for c in two.iter() {
+                    if let (_, Some(k)) = sc.opd(&format!("cli-upd {} 0", c.h)) {
+                        let rq = sc.hist[k].bytes.clone();
+                        if let (_, Some(k)) = sc.opd(&format!("srv-rx 0 {} {}", c.addr, hex(&rq))) {
+                            chal.push(sc.hist[k].bytes.clone());
+                        }
+                    }
+                }
+                sc.op("srv-dump 0");
+                if chal.len() == 2 {
+                    answer_challenge(&mut sc, 5, &a, &chal[0], Some("expect-connected"));
+                    sc.op("srv-q 0 88");
+                    sc.op(&format!("cli-rx 6 {}", hex(&chal[1])));
+                    if let (_, Some(k)) = sc.opd("cli-disc 6") {
+                        let d = sc.hist[k].bytes.clone();
+                        sc.op("srv-dump 0");
+                        sc.op(&format!("srv-rx 0 {} {}", b, hex(&d)));
+                        sc.op("srv-dump 0");
+                    }
+                    sc.op("srv-q 0 88");
+                    if let (_, Some(k)) = sc.opd("cli-pay 5 7374696c6c") {
+                        let p = sc.hist[k].bytes.clone();
+                        sc.op("note expect-payload");
+                        sc.op(&format!("srv-rx 0 {} {}", a, hex(&p)));
+                    }
+                    if let (_, Some(k)) = sc.opd("srv-pay 0 88 6f6b") {
+                        let p = sc.hist[k].bytes.clone();
+                        sc.op("note expect-payload");
+                        sc.op(&format!("cli-rx 5 {}", hex(&p)));
+                    }
+                    sc.op("srv-updc 0 88");
+                    sc.op("srv-q 0 88");
+                    sc.op("cli-q 5");
+                    sc.op("srv-dump 0");
+                }
+            }
+        }
+        // a Response that exists in two copies (a duplicate in the network). One copy connects the client, the session runs
+        // and ENDS before the token expires (40: the server disconnects it; 41: the client leaves); only then the second
+        // copy arrives from the same address: nothing — no second session out of one connection attempt, so whatever the
+        // server seals next (payload, keep-alive, disconnect) it does not seal under that session's key again
+        62 => {
+            for (i, id) in [(0usize, 40u64), (1, 41)] {
+                let a = cls[i].addr.clone();
+                let Some(k) = sc.opd(&format!("cli-upd {} 0", i)).1 else { continue };
+                let rq = sc.hist[k].bytes.clone();
+                let Some(k) = sc.opd(&format!("srv-rx 0 {} {}", a, hex(&rq))).1 else { continue };
+                let ch = sc.hist[k].bytes.clone();
+                sc.op(&format!("cli-rx {} {}", i, hex(&ch)));
+                let Some(k) = sc.opd(&format!("cli-upd {} 0", i)).1 else { continue };
+                let resp = sc.hist[k].bytes.clone();
+                sc.op("note expect-connected");
+                if let (_, Some(k)) = sc.opd(&format!("srv-rx 0 {} {}", a, hex(&resp))) {
+                    let ka = sc.hist[k].bytes.clone();
+                    sc.op(&format!("cli-rx {} {}", i, hex(&ka)));
+                }
+                if let (_, Some(k)) = sc.opd(&format!("srv-pay 0 {} 01", id)) {
+                    let p = sc.hist[k].bytes.clone();
+                    sc.op("note expect-payload");
+                    sc.op(&format!("cli-rx {} {}", i, hex(&p)));
+                }
+                if i == 0 {
+                    if let (_, Some(k)) = sc.opd(&format!("srv-disc 0 {}", id)) {
+                        let d = sc.hist[k].bytes.clone();
+                        sc.op(&format!("cli-rx {} {}", i, hex(&d)));
+                    }
+                } else if let (_, Some(k)) = sc.opd(&format!("cli-disc {}", i)) {
+                    let d = sc.hist[k].bytes.clone();
+                    sc.op(&format!("srv-rx 0 {} {}", a, hex(&d)));
+                }
+                sc.op("srv-dump 0");
+                sc.op("srv-upd 0 250000");
+                sc.op(&format!("srv-rx 0 {} {}", a, hex(&resp))); // the delayed second copy
+                sc.op("srv-dump 0");
+                sc.op(&format!("srv-q 0 {}", id));
+                sc.op(&format!("srv-pay 0 {} 02ff", id));
+                sc.op("srv-upd 0 250000");
+                sc.op(&format!("srv-updc 0 {}", id));
+                sc.op(&format!("srv-disc 0 {}", id));
+                sc.op("srv-dump 0");
+            }
+        }
         // sequence 2^64-1 (the window's EMPTY sentinel) from the owner of a session
         _ => {
             fast_connect(&mut sc, &cls[0]);
@@ -5123,7 +5296,7 @@ fn regress_ops(case: usize) -> Vec<String> {
 /// To refresh after editing a script: `NC_FIXED_COUNTS=1 harness run --props C10 --profiles nc-regress,…` prints them.
 fn fixed_expected(tag: &str, case: usize) -> Option<usize> {
     const REGRESS: &[usize] = &[
-        30, 30, 30, 12, 16, 17, 24, 23, 30, 19, 21, 35, 33, 49, 551, 60, 85, 35, 50, 59, 69, 56, 43, 34, 26, 148, 104, 41, 49, 26, 44, 63, 36, 31, 38, 116, 26, 34, 70, 52, 541, 31, 42, 33, 30, 53, 52, 54, 103, 92, 63, 125, 32, 45, 68, 29, 129, 652, 675,
+        30, 30, 30, 12, 16, 17, 24, 23, 30, 19, 21, 35, 33, 49, 551, 60, 85, 35, 50, 59, 69, 56, 43, 34, 26, 148, 104, 41, 49, 26, 44, 63, 36, 31, 38, 116, 26, 34, 70, 52, 541, 31, 42, 33, 30, 53, 52, 54, 103, 92, 63, 125, 32, 45, 68, 29, 129, 652, 675, 45, 50, 41, 52,
     ];
     match tag {
         "regress" => REGRESS.get(case).copied(),
@@ -7099,7 +7272,16 @@ fn oracle_nonce(ops: &[String], outs: &[String]) -> Option<OracleFail> {
     //   client: the NetcodeClient instance (a `cli-new`);
     //   server: per server-to-client key an epoch that ends when a session under that key ends
     //           (a later reconnect with the same token starts its counter again: a separate attempt).
+    //           A reconnect is a separate attempt because it starts with a new connection request. A second
+    //           `connected` under the same key from the same address with NO answered request from that address since
+    //           the previous `connected` is the same connection attempt going on: its datagrams stay in that attempt's scope.
     let tokens = tokens_of(ops, outs, ops.len());
+    // (server, s2c key) -> (address, op, attempt number) of the latest `connected` sealed under that key
+    let mut last_conn: HashMap<(String, Vec<u8>), (String, usize, usize)> = HashMap::new();
+    // (server, s2c key, address) -> op of the latest request from that address, carrying a token with that key, that was answered
+    let mut last_req: HashMap<(String, Vec<u8>, String), usize> = HashMap::new();
+    // (server, address) -> op of the latest connection request of any content from that address that was answered
+    let mut last_any_req: HashMap<(String, String), usize> = HashMap::new();
     let mut srv_proto: HashMap<String, u64> = HashMap::new();
     // client handle -> (scope op index, protocol id, c2s key)
     let mut cli: HashMap<String, (usize, u64, [u8; 32])> = HashMap::new();
@@ -7108,11 +7290,23 @@ fn oracle_nonce(ops: &[String], outs: &[String]) -> Option<OracleFail> {
     let mut seen: HashMap<(String, Vec<u8>, u64), (usize, Vec<u8>)> = HashMap::new();
     // the challenge tokens a server object sealed under its challenge key: (server, token sequence) -> (op, sealed token)
     let mut chal_seen: HashMap<(String, u64), (usize, Vec<u8>)> = HashMap::new();
-    walk(ops, outs, &mut |i, t, out, _, em| {
+    walk(ops, outs, &mut |i, t, out, input, em| {
         match t[0] {
             "srv-new" if t.len() == 9 && out == "ok" => {
                 srv_proto.insert(t[1].to_string(), p_u64(t[4]).unwrap_or(0));
                 chal_seen.retain(|k, _| k.0 != t[1]);
+            }
+            "srv-rx" if t.len() == 4 && out.starts_with("send ") => {
+                if let Some(d) = input {
+                    if !d.is_empty() && d[0] & 0xf == 0 {
+                        last_any_req.insert((t[1].to_string(), t[2].to_string()), i);
+                    }
+                    if d.len() >= 1078 && d[0] & 0xf == 0 {
+                        for k in tokens.iter().filter(|k| k.private[..] == d[54..1078]) {
+                            last_req.insert((t[1].to_string(), k.s2c.to_vec(), t[2].to_string()), i);
+                        }
+                    }
+                }
             }
             "cli-new" if t.len() == 4 && out == "ok" => {
                 if let Some(b) = p_hex(t[3]) {
@@ -7148,6 +7342,22 @@ fn oracle_nonce(ops: &[String], outs: &[String]) -> Option<OracleFail> {
                             if o[0] == "connected" {
                                 if let Some(id) = p_u64(o[1]) {
                                     session_key.insert((s.clone(), id), key.clone());
+                                }
+                                if o.len() >= 3 {
+                                    let sk = (s.clone(), key.clone());
+                                    let cur = *epoch.get(&sk).unwrap_or(&0);
+                                    if let Some((a, at, ep)) = last_conn.get(&sk) {
+                                        // positively known: a request from this address opened the earlier session's attempt
+                                        // and none was answered since
+                                        let same_attempt = a.as_str() == o[2]
+                                            && last_req.get(&(s.clone(), key.clone(), a.clone())).map(|r| r < at).unwrap_or(false)
+                                            && last_any_req.get(&(s.clone(), a.clone())).map(|r| r < at).unwrap_or(false);
+                                        if same_attempt && *ep < cur {
+                                            epoch.insert(sk.clone(), *ep);
+                                        }
+                                    }
+                                    let now = *epoch.get(&sk).unwrap_or(&0);
+                                    last_conn.insert(sk, (o[2].to_string(), i, now));
                                 }
                             }
                             let e = *epoch.get(&(s.clone(), key.clone())).unwrap_or(&0);
